@@ -230,7 +230,10 @@ class Classes:
                 v = n.value
                 ok = isinstance(v, (ast.Compare, ast.BoolOp)) or (isinstance(v, ast.Constant) and isinstance(v.value, bool)) \
                     or (isinstance(v, ast.Name) and v.id == 'NotImplemented')
-                if isinstance(v, ast.BoolOp) and not all(isinstance(x, ast.Compare) for x in v.values):
+                if isinstance(v, ast.BoolOp) and not all(isinstance(x, ast.Compare) or (
+                        isinstance(x, ast.Call) and isinstance(x.func, ast.Name) and x.func.id == 'isinstance') or (
+                        isinstance(x, ast.UnaryOp) and isinstance(x.op, ast.Not) and isinstance(x.operand, ast.Call)
+                        and isinstance(x.operand.func, ast.Name) and x.operand.func.id == 'isinstance') for x in v.values):
                     ok = False
                 if isinstance(v, ast.BoolOp) and not isinstance(v.op, ast.And if op is ast.Eq else ast.Or):
                     ok = False
@@ -414,6 +417,70 @@ class FnTables:
             elif isinstance(n, ast.Call) and isinstance(n.func, ast.Name) and n.func.id in self.tables and self.tables[n.func.id]['kind'] == 'finder':
                 pass        # add_to_pool(x): the key function decides
 
+    def _single_assign(self, name: str) -> ast.AST | None:
+        """The expression a local is bound to, when it is assigned exactly once by a plain assignment (not a loop variable)."""
+        if name in self.params:
+            return None
+        vals = []
+        for n in ast.walk(self.fn):
+            if isinstance(n, ast.Assign):
+                for t in n.targets:
+                    for x in ast.walk(t):
+                        if isinstance(x, ast.Name) and x.id == name and isinstance(x.ctx, ast.Store):
+                            vals.append(n.value if isinstance(t, ast.Name) else None)
+            elif isinstance(n, (ast.AnnAssign, ast.AugAssign)) and isinstance(n.target, ast.Name) and n.target.id == name:
+                vals.append(n.value if isinstance(n, ast.AnnAssign) else None)
+            elif isinstance(n, (ast.For, ast.comprehension)):
+                if any(isinstance(x, ast.Name) and x.id == name for x in ast.walk(n.target)):
+                    vals.append(None)
+            elif isinstance(n, ast.NamedExpr) and n.target.id == name:
+                vals.append(None)
+        return vals[0] if len(vals) == 1 and vals[0] is not None else None
+
+    def _inline(self, e: ast.AST, depth: int = 0) -> ast.AST:
+        """Replace a bare local by the expression it was assigned once (key = part.name.casefold(); table[key] = ...)."""
+        if depth < 4 and isinstance(e, ast.Name) and e.id not in self.tables:
+            v = self._single_assign(e.id)
+            if v is not None and not isinstance(v, (ast.Constant, ast.Dict, ast.List, ast.Set, ast.Call)) or \
+                    (v is not None and isinstance(v, ast.Call) and isinstance(v.func, ast.Attribute) and v.func.attr in STR_TRANSFORMS):
+                return self._inline(v, depth + 1)
+        return e
+
+    def _attr_class(self, attr: str) -> str | None:
+        """The module class an attribute of that name is annotated with (`parent: Optional['Bone']`), if that is unambiguous."""
+        found: set[str] = set()
+        for c in self.cls.raw.values():
+            for st in c.body:
+                if isinstance(st, ast.AnnAssign) and isinstance(st.target, ast.Name) and st.target.id == attr:
+                    txt = ast.unparse(st.annotation)
+                    for cn in self.cls.raw:
+                        if re.search(rf'(?<![A-Za-z0-9_]){re.escape(cn)}(?![A-Za-z0-9_])', txt):
+                            found.add(cn)
+        return found.pop() if len(found) == 1 else None
+
+    def _var_class(self, name: str) -> str | None:
+        """Class of a loop / comprehension variable that ranges over a typed table or over `self.attr.values()`."""
+        for n in ast.walk(self.fn):
+            if isinstance(n, (ast.For, ast.comprehension)) and isinstance(n.target, ast.Name) and n.target.id == name:
+                it = n.iter
+                while isinstance(it, ast.Call) and isinstance(it.func, ast.Name) and it.func.id in ('list', 'sorted', 'tuple', 'reversed', 'iter') and it.args:
+                    it = it.args[0]
+                if isinstance(it, ast.Call) and isinstance(it.func, ast.Attribute) and it.func.attr == 'keys' and not it.args:
+                    it = it.func.value
+                if isinstance(it, ast.Name) and it.id in self.tables and self.tables[it.id]['key_type'] in self.cls.raw:
+                    return self.tables[it.id]['key_type']
+                c = self._elem_class(it)
+                if c is not None and c in self.cls.raw:
+                    return c
+        return None
+
+    def _expr_class(self, e: ast.AST) -> str | None:
+        if isinstance(e, ast.Name):
+            return self._var_class(e.id)
+        if isinstance(e, ast.Attribute):
+            return self._attr_class(e.attr)
+        return None
+
     def _elem_class(self, it: ast.AST) -> str | None:
         """Class of the elements of `self.attr.values()` / `self.attr` from the class-level annotation of attr."""
         e = it
@@ -439,6 +506,15 @@ class FnTables:
         """[(table name, keyspec, item class)], [tables with mixed normalisation]"""
         out: list[tuple[str, Any, str | None]] = []
         mixed: list[str] = []
+        # a table without annotation takes the class of the elements it is built from / of the objects stored into it
+        for _ in range(2):
+            for name, t in self.tables.items():
+                if t['key_type'] is None:
+                    for how, e in t['stores']:
+                        c = self._elem_class(e) if how == 'elements' else self._expr_class(self._inline(e))
+                        if c is not None and c in self.cls.raw:
+                            t['key_type'] = c
+                            break
         for name, t in sorted(self.tables.items()):
             where = f'{self.qual}:{name}'
             kt = t['key_type']
@@ -474,7 +550,13 @@ class FnTables:
                     elif isinstance(e, ast.Constant):
                         continue            # a fixed slot, not an object
                     else:
-                        k = key_expr(e, where)
+                        try:
+                            k = key_expr(self._inline(e), where)
+                        except TranslateError:
+                            if ctx == 'load' and kt is not None and self._is_class(kt):
+                                load_trs.add('obj')     # some object expression looked up in an object-keyed table
+                                continue
+                            raise
                     s = self._spec(k, kt, where)
                     trs = 'obj' if isinstance(s, str) or k[0] in ('object', 'attr', 'class') else '|'.join(x[1] for x in s)
                     (store_trs if ctx == 'store' else load_trs).add(trs)
